@@ -199,7 +199,7 @@ PROPS["C14"] = {"quick": _c14, "thorough": _c14t,
                 "assumptions": ["bounded exploration, not a proof of race freedom; verdicts are happens-before based, so one explored schedule exposes a race that needs a rare schedule to manifest"]}
 _c19 = [L2("ZZ_S07a_Timeout", 1, labels=["leak:"], note="quiescence after Timeout executions"), L2("ZZ_S07b_RetryTimeout", 1, labels=["leak:"], note="after Retry(Timeout)"),
         L2("ZZ_S09a_Hedge", 1, params={"max_hedges": 1}, labels=["leak:"], note="after hedged executions"), L2("ZZ_S08a_CancelRetry", 1, labels=["leak:"], note="after cancelled executions"),
-        L2("ZZ_S08b_CancelWaits", 1, labels=["leak:"], note="after cancelled waits"), L2("ZZ_S08c_CancelHedge", 1, labels=["leak:"], note="after a cancelled hedged execution"), L2("ZZ_S08c_CancelHedge", 1, params={"max_hedges": 2}, labels=["leak:"], note="same with maxHedges 2 (two outstanding attempts)"), L2("ZZ_S15a_Async", 1, params={"readers": 1}, labels=["leak:"], note="async runner"),
+        L2("ZZ_S08b_CancelWaits", 1, labels=["leak:"], note="after cancelled waits"), L2("ZZ_S08c_CancelHedge", 1, labels=["leak:"], note="after a cancelled hedged execution"), L2("ZZ_S08c_CancelHedge", 1, params={"max_hedges": 2}, labels=["leak:"], tp=1, note="same with maxHedges 2 (two outstanding attempts)"), L2("ZZ_S15a_Async", 1, params={"readers": 1}, labels=["leak:"], note="async runner"),
         L2("ZZ_S06a_Bulkhead", 0, params={"max_m": 1}, labels=["leak:"], note="after bulkhead executions"),
         L2("ZZ_S07f_TimeoutCtxCancel", 1, labels=["leak:"], note="Timeout execution ended by context cancellation: timer stopped, nothing left")]
 PROPS["C19"] = {"quick": _c19, "thorough": _c19}
@@ -252,7 +252,7 @@ PROPS["C18"] = {"quick": _c18, "thorough": _c18t,
                                 "request bodies of at most 2 (symbolic) bytes; caller context background / with value / cancellable"]}
 PROPS["C19"]["quick"] = PROPS["C19"]["quick"] + [J("internal/util", "ZZ_H18c_MergeContexts", preempt=1, race=True, labels=["leak:"], note="context merger goroutine after the attempt returned"),
                                                  J("failsafehttp", "ZZ_H18e_DoRequest", preempt=0, race=True, labels=["http-close:"], note="doRequest over a stub transport, 0-2 retried responses then 200: every response obtained but not returned is closed, the returned one is not")]
-PROPS["C19"]["thorough"] = [dict(j, preempt=2, time_limit_s=9000, note=(j.get("note", "") + "; P=2")) for j in PROPS["C19"]["quick"]]
+PROPS["C19"]["thorough"] = [dict(j, preempt=j.get("tp", 2), time_limit_s=9000, note=(j.get("note", "") + "; P=%d" % j.get("tp", 2))) for j in PROPS["C19"]["quick"]]
 PROPS["C19"]["level_note"] = "PARTIAL: core library goroutines/timers, the HTTP/gRPC context merger and (over a stub transport) closing of responses that are obtained but not returned are decided; release of pooled connections by net/http.Transport is not applicable (listed under not_applicable)."
 
 DEFAULT_LEVEL_TEXT = ("Bounded symbolic model checking of the real code: the property's harness is executed symbolically from /repo's current "
